@@ -217,7 +217,7 @@ def histories(ctx):
     mod, cfg = mc_hist(2 if quick else 3)
     res = run_tlc('MCNamesHist', cfg_text=cfg + 'INIT Init\nNEXT Next\nINVARIANT TypeOK\nINVARIANT FindConforms\n'
                   'INVARIANT OrderFree\nPROPERTY LookupIsCurrent\n', extra_files={'MCNamesHist.tla': mod},
-                  workers=8, timeout=1500)
+                  workers=8, timeout=1500, coverage=True)
     account(ctx, res, 'NamesHist: every history of adds / removes / lookups on a registry; FindConforms, OrderFree, '
                       'LookupIsCurrent')
     out = scratch(f'nameshist-{ctx.prop}')
